@@ -699,7 +699,7 @@ func cmdCheck(args []string) int {
 				// shards found and confirmed: report those (exit 1) and say that the run was incomplete.
 				nv := 0
 				for _, r := range res {
-					nv += r.NViolations
+					nv += int(r.NViolations)
 				}
 				if nv == 0 {
 					fatal("%v", err)
